@@ -267,14 +267,26 @@ def explore_schedules(make_bodies, watched, bound, reset, check, max_execs=20000
             break
         reset()
         s = Scheduler(watched, prefix, watch_module_code=watch_module_code)
-        try:
-            res = s.run(make_bodies())
-        except RuntimeError as e:
-            if 'diverged' in str(e):
-                # a prefix recorded under a different blocking pattern: not replayable, counted, never a verdict
-                outcomes['<diverged>'] = outcomes.get('<diverged>', 0) + 1
-                continue
-            raise
+        res = None
+        for attempt in range(3):
+            try:
+                res = s.run(make_bodies())
+                break
+            except RuntimeError as e:
+                if 'diverged' in str(e):
+                    # a prefix recorded under a different blocking pattern: not replayable, counted, never a verdict
+                    outcomes['<diverged>'] = outcomes.get('<diverged>', 0) + 1
+                    break
+                # deadlock / horizon reported by the scheduler itself: retry on a fresh state; a persistent one is
+                # reported to the caller through check() as a scheduler anomaly (never silently dropped)
+                last_error = str(e)
+                reset()
+                s = Scheduler(watched, prefix, watch_module_code=watch_module_code)
+        else:
+            outcomes['<anomaly> ' + last_error[:60]] = outcomes.get('<anomaly> ' + last_error[:60], 0) + 1
+            res = None
+        if res is None:
+            continue
         n += 1
         key = check(res, list(s.taken), s)
         outcomes[key] = outcomes.get(key, 0) + 1
